@@ -922,8 +922,86 @@ def strip_ref_patterns(toks, log):
                         kept[0].ws = ' '
                     out[i + 1:eq] = kept
         i += 1
+    # `match &EXPR { &PAT(ref x) => .., }`: the same rule for the arm patterns of a match on a shared reference
+    m = 0
+    i = 0
+    while i < len(out):
+        if out[i].kind == 'ident' and out[i].text == 'match' and i + 1 < len(out) and out[i + 1].text == '&' and not (i + 2 < len(out) and out[i + 2].text == 'mut'):
+            j = i + 1
+            depth = 0
+            while j < len(out) and not (out[j].text == '{' and depth == 0):
+                if out[j].text in ('(', '['):
+                    depth += 1
+                elif out[j].text in (')', ']'):
+                    depth -= 1
+                j += 1
+            if j >= len(out):
+                break
+            body_open = j
+            # collect the pattern spans of the arms
+            spans = []
+            k = body_open + 1
+            ok = True
+            while k < len(out) and out[k].text != '}':
+                ps = k
+                d = 0
+                while k < len(out) and not (out[k].text == '=>' and d == 0):
+                    if out[k].text in OPEN:
+                        d += 1
+                    elif out[k].text in (')', ']', '}'):
+                        d -= 1
+                        if d < 0:
+                            ok = False
+                            break
+                    k += 1
+                if not ok or k >= len(out):
+                    ok = False
+                    break
+                spans.append((ps, k))
+                k += 1
+                if k < len(out) and out[k].text == '{':
+                    d = 0
+                    while k < len(out):
+                        if out[k].text in OPEN:
+                            d += 1
+                        elif out[k].text in (')', ']', '}'):
+                            d -= 1
+                            if d == 0:
+                                break
+                        k += 1
+                    k += 1
+                    if k < len(out) and out[k].text == ',':
+                        k += 1
+                else:
+                    d = 0
+                    while k < len(out):
+                        if out[k].text in OPEN:
+                            d += 1
+                        elif out[k].text in (')', ']', '}'):
+                            if d == 0:
+                                break
+                            d -= 1
+                        elif out[k].text == ',' and d == 0:
+                            k += 1
+                            break
+                        k += 1
+            if ok and spans:
+                pats = [out[a:b] for a, b in spans]
+                has_ref_mut = any(pt[x].text == 'ref' and x + 1 < len(pt) and pt[x + 1].text == 'mut' for pt in pats for x in range(len(pt)))
+                if not has_ref_mut and any(x.text in ('&', 'ref') for pt in pats for x in pt):
+                    drop = set()
+                    for a, b in spans:
+                        g = next((x for x in range(a, b) if out[x].kind == 'ident' and out[x].text == 'if'), b)
+                        for x in range(a, g):
+                            if out[x].text in ('&', 'ref'):
+                                drop.add(x)
+                    m += len(drop)
+                    out = [t for x, t in enumerate(out) if x not in drop]
+        i += 1
     if n:
         log.append(('R16', toks[0].file, toks[0].line, '%d `&`/`ref` token(s) dropped from reference patterns of `if let .. = &e`' % n))
+    if m:
+        log.append(('R16', toks[0].file, toks[0].line, '%d `&`/`ref` token(s) dropped from the arm patterns of `match &e { .. }`' % m))
     return out
 
 
